@@ -7,14 +7,14 @@ MANIFEST = {
     "text": "Coq theorems (C15_route, C15_echo, C15_no_false_success, C15_respond_only_truthful, C15_independent over all requests, "
             "manager outcomes, manager sets, stream permutations and interleavings) about a model that INTERPRETS the dispatch table "
             "regenerated from the source by `xlate dispatch` (type code -> processor; for the phase-two processors the asserted "
-            "request, the manager-selecting expression, method and arguments, the early return on error, the echoed response fields and "
+            "request, the manager-selecting expression, method and arguments, what a manager error does (silence always / only without a status) and the result codes, the echoed response fields and "
             "the id the response is sent under; manager -> branch type), with the obligation C15_source_dispatch_good; tied to the real "
             "listener/processors/rm cache by delivering generated mixed streams concurrently through OnMessage with scripted managers "
             "registered in the real cache, capturing response frames at a fake session and comparing per request with the model "
             "evaluated inside Coq, plus the property's own statement evaluated on the run.",
     "note": "Trusted: Coq kernel + vm_compute, no axioms; tools/xlate dispatch (statement patterns; anything unrecognised fails the "
             "obligation); harness remrun15. A request for a branch type without manager panics inside getty's task goroutine "
-            "(modelled as Panic, no reply); a manager error yields silence (accepted by C15's text; C05 is stricter).",
+            "(modelled as Panic, no reply); a manager error yields one response with the manager's status and result code Failed, silence for status Unknown; listed finding: a manager returning an error together with a success status gets it reported.",
     "technique": "Coq proof over a translator-regenerated dispatch table + differential correspondence (vm_compute) + direct oracle",
 }
 TABLES = [("dispatch", "DispatchTable.v")]
